@@ -190,13 +190,18 @@ pub fn c05_worker(ctx: &mut Ctx) {
         }
     }
     ctx.count("generated_programs", n_gen);
-    let results: Vec<ShardResult> = cases
+    // The configurations are compared against the baseline in groups of three, one pass over the
+    // cases per group: a thread then keeps at most a handful of databases alive (each holds a
+    // fully analysed corelib).
+    let groups: Vec<Vec<Config>> = cfgs[1..].chunks(3).map(|g| std::iter::once(cfgs[0]).chain(g.iter().copied()).collect()).collect();
+    let work: Vec<(&Vec<Config>, &(String, String))> = groups.iter().flat_map(|g| cases.iter().map(move |c| (g, c))).collect();
+    let results: Vec<ShardResult> = work
         .par_iter()
-        .map(|(name, code)| {
+        .map(|(cfgs, (name, code))| {
             let mut acc = ShardResult::default();
             if let Err((loc, msg)) = guarded(|| {
                 let mut local = ShardResult::default();
-                compare_snippet(&mut local, name, code, &cfgs, seed, inputs_per_fn);
+                compare_snippet(&mut local, name, code, cfgs, seed, inputs_per_fn);
                 local
             })
             .map(|l| acc.merge(l))
